@@ -1,6 +1,8 @@
 package main
 
 import (
+	"crypto/sha256"
+	"encoding/hex"
 	"fmt"
 	"math/rand"
 	"os"
@@ -11,6 +13,7 @@ import (
 	"github.com/tableauio/tableau"
 	"github.com/tableauio/tableau/format"
 	"github.com/tableauio/tableau/options"
+	"github.com/tableauio/tableau/xerrors"
 )
 
 // The pool of API calls for the history stream. All calls reuse the same package, workbook, sheet, enum and
@@ -21,12 +24,15 @@ import (
 //	C: like A but RewardConf refers to a column that does not exist (the load of the value space fails)
 //	D: like A but with a custom metasheet name "@META"
 //	E: like B, language zh
+//	F: like A, but RewardConf refers to an item that does not exist (E2002), language en
+//	G: like B, with the same defect (E2002), language zh
 func c16Call(name string, w *workspace) string {
 	kind := [][]string{{"Name", "Alias"}, {"KIND_X", "Alpha"}, {"KIND_Y", "Beta"}}
 	ids := []string{"1", "2"}
 	refer := "ItemConf.ID"
 	lang := "en"
 	metasheet := ""
+	badRef := false
 	switch name {
 	case "B", "E":
 		kind = [][]string{{"Name", "Alias"}, {"KIND_P", "Beta"}, {"KIND_Q", "Alpha"}}
@@ -34,6 +40,13 @@ func c16Call(name string, w *workspace) string {
 		if name == "E" {
 			lang = "zh"
 		}
+	case "F":
+		badRef = true
+	case "G":
+		kind = [][]string{{"Name", "Alias"}, {"KIND_P", "Beta"}, {"KIND_Q", "Alpha"}}
+		ids = []string{"5", "6"}
+		lang = "zh"
+		badRef = true
 	case "C":
 		refer = "ItemConf.NoSuchColumn"
 	case "D":
@@ -41,6 +54,9 @@ func c16Call(name string, w *workspace) string {
 	}
 	item := [][]string{{"ID", "Kind"}, {"map<uint32, Item>", "enum<.Kind>"}, {"id", "kind"}, {ids[0], "Alpha"}, {ids[1], "Beta"}}
 	reward := [][]string{{"ID", "ItemID"}, {"map<uint32, Reward>", "uint32|{refer:\"" + refer + "\"}"}, {"id", "item"}, {"1", ids[0]}, {"2", ids[1]}}
+	if badRef {
+		reward = append(reward, []string{"3", "77"})
+	}
 	msName := "@TABLEAU"
 	if metasheet != "" {
 		msName = metasheet
@@ -62,7 +78,10 @@ func c16Call(name string, w *workspace) string {
 		Output: &options.ConfOutputOption{Formats: []format.Format{format.JSON}},
 	}
 	if err := tableau.GenConf("protoconf", w.In, w.Conf, options.Conf(co), options.Log(quietLog), options.Lang(lang), options.LocationName("UTC")); err != nil {
-		return "conferr " + errCode(err) // which partial outputs exist after a failed run is not specified
+		// which partial outputs exist after a failed run is not specified; the rendered error is part of the outcome
+		text := strings.ReplaceAll(xerrors.NewDesc(err).String(), w.Root, "<ROOT>")
+		sum := sha256.Sum256([]byte(text))
+		return "conferr " + errCode(err) + " text=" + hex.EncodeToString(sum[:6])
 	}
 	return "ok " + snapString(snapshot(w.Proto)) + "|" + snapString(snapshot(w.Conf))
 }
@@ -91,7 +110,7 @@ func init() {
 	// e2e.C16.history: every history of ≤ 3 calls from the pool; the LAST call's outcome (files written, error)
 	// in a process that ran the whole history vs. in a fresh process.
 	regStream("e2e.C16.history", func(r *rand.Rand, n int, emit func(string, ...string)) {
-		pool := []string{"A", "B", "C", "D", "E"}
+		pool := []string{"A", "B", "C", "D", "E", "F", "G"}
 		count := 0
 		for _, a := range pool {
 			for _, b := range pool {
@@ -100,7 +119,7 @@ func init() {
 			}
 		}
 		for count < n {
-			emit("c16.hist", pool[r.Intn(5)], pool[r.Intn(5)], pool[r.Intn(5)])
+			emit("c16.hist", pool[r.Intn(len(pool))], pool[r.Intn(len(pool))], pool[r.Intn(len(pool))])
 			count++
 		}
 	})
